@@ -1,6 +1,21 @@
 package core
 
-import "encoding/json"
+import (
+	"encoding/json"
+	"math"
+	"math/big"
+	"strconv"
+)
+
+// ExactNumber prints a float64 so that its decimal text denotes exactly the float's value when that
+// is an integer (Go's shortest form pads with zeros: -2^63 prints as -9223372036854776000).
+func ExactNumber(f float64) json.Number {
+	if f == math.Trunc(f) && !math.IsInf(f, 0) {
+		v, _ := new(big.Float).SetFloat64(f).Int(nil)
+		return json.Number(v.String())
+	}
+	return json.Number(strconv.FormatFloat(f, 'f', -1, 64))
+}
 
 func jsonNumber(s string) json.Number { return json.Number(s) }
 
